@@ -19,17 +19,23 @@
 (*                session but raised with another, more specific URI: an   *)
 (*                application error always travels with the URI it carries *)
 (*   "appsubundef" the same subclass, not defined                          *)
+(*   "redefined"  a plain class defined twice with different URIs: the     *)
+(*                later definition is the registered one                   *)
+(*   "appfixed"   an ApplicationError subclass that supplies its URI       *)
+(*                itself (constructor takes the arguments only): carried   *)
+(*                like any application error; a caller that registered the *)
+(*                class for that URI gets it back built from the arguments *)
 (* Caller side registry for the URI: "same" (the class is defined there    *)
 (* too and accepts the arguments), "badctor" (a class is defined whose     *)
 (* constructor rejects the arguments / raises), "none".                    *)
 (***************************************************************************)
 EXTENDS Naturals, TLC
 
-Kinds == {"app", "decorated", "decorated2", "defined", "undefined", "definedsub", "undefsub", "appsub", "appsubundef"}
+Kinds == {"app", "decorated", "decorated2", "defined", "undefined", "definedsub", "undefsub", "appsub", "appsubundef", "redefined", "appfixed"}
 Registry == {"same", "badctor", "none"}
 
 \* which URI the ERROR carries: "carried" (the application error's own), "registered", "runtime" (wamp.error.runtime_error)
-WireUri(kind) == CASE kind \in {"app", "appsub", "appsubundef"} -> "carried" [] kind \in {"decorated", "decorated2", "defined", "definedsub"} -> "registered" [] OTHER -> "runtime"
+WireUri(kind) == CASE kind \in {"app", "appsub", "appsubundef", "appfixed"} -> "carried" [] kind \in {"decorated", "decorated2", "defined", "definedsub", "redefined"} -> "registered" [] OTHER -> "runtime"
 
 \* what the caller's call fails with: the registered class if there is one that can be constructed, else the generic error
 CallerClass(reg) == IF reg = "same" THEN "registered" ELSE "generic"
